@@ -16,6 +16,8 @@ pub enum Kind {
     Fail,
     Stream0,
     Stream2,
+    /// StreamRaw(2): the implementation does not check `more` itself
+    Raw2,
     UnknownIface,
     TNope,
     NoDot,
@@ -24,7 +26,7 @@ pub enum Kind {
     Upgrade,
 }
 
-pub const KINDS: [Kind; 14] = [
+pub const KINDS: [Kind; 15] = [
     Kind::GetInfo,
     Kind::GidKnown,
     Kind::GidUnknown,
@@ -34,6 +36,7 @@ pub const KINDS: [Kind; 14] = [
     Kind::Fail,
     Kind::Stream0,
     Kind::Stream2,
+    Kind::Raw2,
     Kind::UnknownIface,
     Kind::TNope,
     Kind::NoDot,
@@ -58,7 +61,7 @@ pub struct Req {
     pub token: String,
 }
 
-/// The 56-letter alphabet RQ, simplest first (14 kinds x 4 flag settings).
+/// The 60-letter alphabet RQ, simplest first (15 kinds x 4 flag settings).
 pub fn alphabet() -> Vec<(Kind, Flag)> {
     let mut v = vec![];
     for f in FLAGS {
@@ -185,6 +188,7 @@ impl Req {
             Kind::Fail => ("org.verif.t.Fail", Some(json!({}))),
             Kind::Stream0 => ("org.verif.t.Stream", Some(json!({"n": 0}))),
             Kind::Stream2 => ("org.verif.t.Stream", Some(json!({"n": 2}))),
+            Kind::Raw2 => ("org.verif.t.StreamRaw", Some(json!({"n": 2}))),
             Kind::UnknownIface => ("org.nope.Method", Some(json!({"v": self.token}))),
             Kind::TNope => ("org.verif.t.Nope", Some(json!({}))),
             Kind::NoDot => ("Nodot", Some(json!({}))),
@@ -249,6 +253,14 @@ impl Req {
                     v
                 } else {
                     vec![Pred::err("org.verif.t.NeedMore", Any)]
+                }
+            }
+            Kind::Raw2 => {
+                if more {
+                    vec![Pred::cont(Exact(json!({"i": 0}))), Pred::cont(Exact(json!({"i": 1}))), Pred::ok(Exact(json!({"i": 2})))]
+                } else {
+                    // the library rejects the first continues reply: nothing is written and the service closes
+                    vec![Pred { continues: false, error: ErrSpec::Named("<never: the connection is closed instead>"), params: Any }]
                 }
             }
             Kind::UnknownIface => vec![Pred::err(
@@ -388,7 +400,7 @@ pub fn reqs_to_json(reqs: &[Req]) -> Value {
 pub fn kind_from_str(s: &str) -> Option<Kind> {
     let all = [
         Kind::GetInfo, Kind::GidKnown, Kind::GidUnknown, Kind::GidNoParams, Kind::SvcNope,
-        Kind::Echo, Kind::Fail, Kind::Stream0, Kind::Stream2, Kind::UnknownIface, Kind::TNope,
+        Kind::Echo, Kind::Fail, Kind::Stream0, Kind::Stream2, Kind::Raw2, Kind::UnknownIface, Kind::TNope,
         Kind::NoDot, Kind::EchoBad, Kind::Close, Kind::Upgrade,
     ];
     all.iter().copied().find(|k| format!("{:?}", k) == s)
